@@ -13,7 +13,7 @@ TraceLog == TLCGet(7)
 LoadLog == TLCSet(7, ndJsonDeserialize(IOEnv.TRACE))
 
 VARIABLES l, claims,  \* claims: <<k,r,N1,seed>> -> claim seen (for enc/dec agreement)
-          cnt         \* coverage counters: <<uneven placements, completion entries>> of the validated constructions
+          cnt         \* coverage counters: <<uneven placements, completion entries>> of the validated constructions, <<light lines, light lines with the claim made>>
           , last     \* result of the definition for the current line (a variable so that TLC evaluates it once)
 vars == <<l, claims, cnt, last>>
 
@@ -35,18 +35,35 @@ CheckLine(ev) ==
         /\ IF key \in DOMAIN claims => claims[key] = ev.lastnull THEN TRUE ELSE Msg(ev, "C15", "lastnull-claim-differs-between-sessions")
         /\ claims' = IF key \in DOMAIN claims THEN claims ELSE (key :> ev.lastnull) @@ claims
         /\ cnt' = << cnt[1] + Cardinality({ i \in DOMAIN spec.ins : spec.ins[i][3] = 1 }),
-                     cnt[2] + Cardinality({ i \in DOMAIN spec.ins : spec.ins[i][3] \in {2, 3} }) >>
+                     cnt[2] + Cardinality({ i \in DOMAIN spec.ins : spec.ins[i][3] \in {2, 3} }), cnt[3], cnt[4] >>
 
-Init == LoadLog /\ l = 1 /\ claims = << >> /\ cnt = <<0, 0>> /\ last = [H |-> <<>>, extra |-> FALSE, draws |-> 0, final |-> 0, ins |-> <<>>]
+(* Parameter points beyond what the RFC construction can be re-evaluated for in TLC (n-k in the tens of      *)
+(* thousands: counters of the construction near their type widths).  The truth of the claim is decided on  *)
+(* the equations of the session as observed, which needs no re-construction: claimed => the equations sum  *)
+(* to {n-1}; both roles agree.  (C05's clause is not decided for these lines.)                            *)
+Light(ev) == ev.k + ev.r > 3100
+CheckClaim(ev) ==
+    LET H    == HOf(ev)
+        n    == ev.k + ev.r
+        key  == <<ev.k, ev.r, ev.N1, ev.seed>>
+        nullTruth == SumOfRows(H) = {n - 1}
+    IN  /\ IF "lastnull" \in DOMAIN ev /\ ev.lastnull \in {0, 1} THEN TRUE ELSE Msg(ev, "C15", "lastnull-query-failed")
+        /\ IF ev.lastnull = 1 => nullTruth THEN TRUE ELSE Msg(ev, "C15", "lastnull-claimed-but-symbol-not-null")
+        /\ IF key \in DOMAIN claims => claims[key] = ev.lastnull THEN TRUE ELSE Msg(ev, "C15", "lastnull-claim-differs-between-sessions")
+        /\ claims' = IF key \in DOMAIN claims THEN claims ELSE (key :> ev.lastnull) @@ claims
+        /\ cnt' = << cnt[1], cnt[2], cnt[3] + 1, cnt[4] + ev.lastnull >>
+        /\ UNCHANGED last
+
+Init == LoadLog /\ l = 1 /\ claims = << >> /\ cnt = <<0, 0, 0, 0>> /\ last = [H |-> <<>>, extra |-> FALSE, draws |-> 0, final |-> 0, ins |-> <<>>]
 
 Next ==
     /\ l <= Len(TraceLog)
     /\ l' = l + 1
     /\ LET ev == TraceLog[l]
        IN  IF ev.e = "SetParams" /\ ev.codec = 3 /\ ev.st = 0 /\ "H" \in DOMAIN ev /\ ev.seed >= 1
-           THEN CheckLine(ev)
+           THEN IF Light(ev) THEN CheckClaim(ev) ELSE CheckLine(ev)
            ELSE UNCHANGED <<claims, cnt, last>>
-    /\ IF l = Len(TraceLog) THEN PrintT(<<"PSTAT", cnt'[1], cnt'[2]>>) ELSE TRUE
+    /\ IF l = Len(TraceLog) THEN PrintT(<<"PSTAT", cnt'[1], cnt'[2], cnt'[3], cnt'[4]>>) ELSE TRUE
 
 TraceSpec == Init /\ [][Next]_vars
 TraceConsumed == TLCGet("stats").diameter - 1 = Len(TraceLog)
